@@ -114,7 +114,11 @@ func genC20(seed uint64) *Scenario {
 		switch st.Op {
 		case "adderr", "addwarn":
 			for k := 0; k < r.Range(1, batchMax); k++ {
-				st.Msgs = append(st.Msgs, pick(r, texts))
+				t := pick(r, texts)
+				if t != "" && r.Chance(120) {
+					t = pick(r, []string{"w:", "c:"}) + t // a wrapper / composite around (possibly) an error value used before
+				}
+				st.Msgs = append(st.Msgs, t)
 			}
 			if len(st.Msgs) >= 2 && r.Chance(300) {
 				st.Msgs = append(st.Msgs, st.Msgs[0]) // the same text again inside one call
@@ -142,23 +146,53 @@ func genC20(seed uint64) *Scenario {
 	return sc
 }
 
-func mkErrs(msgs []string) []error {
+// errFactory builds the error values of one run. Texts repeat; the values carrying them are sometimes new, sometimes
+// the very value used before, sometimes a wrapper ("w:<t>": fmt.Errorf with %w) or a composite ("c:<t>": a go-openapi
+// CompositeError) around a value used before: de-duplication is by exact message text and by nothing else.
+type errFactory struct {
+	seen map[string]error
+	n    int
+}
+
+func (f *errFactory) mk(msgs []string) []error {
+	if f.seen == nil {
+		f.seen = map[string]error{}
+	}
 	out := make([]error, 0, len(msgs))
 	for _, m := range msgs {
-		if m == "" {
+		f.n++
+		switch {
+		case m == "":
 			out = append(out, nil)
-		} else {
-			out = append(out, errors.New(m)) // a distinct error value every time, texts repeat
+		case strings.HasPrefix(m, "w:"):
+			inner := f.value(m[2:])
+			out = append(out, fmt.Errorf("wrapped(%s): %w", m[2:], inner))
+		case strings.HasPrefix(m, "c:"):
+			inner := f.value(m[2:])
+			out = append(out, oaerrors.CompositeValidationError(inner, errors.New("and "+m[2:])))
+		default:
+			out = append(out, f.value(m))
 		}
 	}
 	return out
 }
 
-func nonEmpty(msgs []string) []string {
+// value returns an error value with text m: every third time the value handed out before for that text.
+func (f *errFactory) value(m string) error {
+	if e, ok := f.seen[m]; ok && f.n%3 == 0 {
+		return e
+	}
+	e := errors.New(m)
+	f.seen[m] = e
+	return e
+}
+
+// errTexts: the message texts of the non-nil errors, as the model sees them.
+func errTexts(errs []error) []string {
 	var out []string
-	for _, m := range msgs {
-		if m != "" {
-			out = append(out, m)
+	for _, e := range errs {
+		if e != nil {
+			out = append(out, e.Error())
 		}
 	}
 	return out
@@ -195,6 +229,7 @@ func runC20(sc *Scenario, keepLog bool) (rep *RunReport) {
 		})
 	}
 	releasedReissued := 0
+	fac := &errFactory{}
 	for i, st := range rs.Steps {
 		if st.I >= rs.Slots {
 			continue
@@ -225,14 +260,16 @@ func runC20(sc *Scenario, keepLog bool) (rep *RunReport) {
 				if st.I < 0 || !mod[st.I].live {
 					return
 				}
-				res[st.I].AddErrors(mkErrs(st.Msgs)...)
-				mod[st.I].errs = addSet(mod[st.I].errs, nonEmpty(st.Msgs)...)
+				es := fac.mk(st.Msgs)
+				res[st.I].AddErrors(es...)
+				mod[st.I].errs = addSet(mod[st.I].errs, errTexts(es)...)
 			case "addwarn":
 				if st.I < 0 || !mod[st.I].live {
 					return
 				}
-				res[st.I].AddWarnings(mkErrs(st.Msgs)...)
-				mod[st.I].warns = addSet(mod[st.I].warns, nonEmpty(st.Msgs)...)
+				es := fac.mk(st.Msgs)
+				res[st.I].AddWarnings(es...)
+				mod[st.I].warns = addSet(mod[st.I].warns, errTexts(es)...)
 			case "inc":
 				if st.I < 0 || !mod[st.I].live {
 					return
